@@ -197,8 +197,36 @@ COMPLEX: Dict[str, Dict[str, Any]] = {
     },
 }
 CORE = ("CP_CanFuncReqId", "CP_UniqueRespIdTable")  # one simple + one complex parameter: the main enumeration
-ALL = tuple(SIMPLE) + tuple(COMPLEX)
-PARAM_SETS = {"core": CORE, "all": ALL, "simple": ("CP_CanFuncReqId",), "complex": ("CP_UniqueRespIdTable",)}
+BASE = tuple(SIMPLE) + tuple(COMPLEX)  # the eleven named parameters the typed accessors read
+# Further specifications (no accessor of their own).  A parameter is identified by its key; `name@B` is a DIFFERENT
+# specification with the SAME short name `name` in a second COMPARAM-SUBSET (as CP_UniqueRespIdTable of ISO 15765-2 and of
+# ISO 13400-2); `CP_CanFuncReqId_Ecu` is a specification whose short name merely EXTENDS another one.
+SIMPLE["CP_CanFuncReqId_Ecu"] = {"default": "2014", "accessor": None, "conv": "int"}
+SIMPLE["CP_CanFuncReqId@B"] = {"default": "2047", "accessor": None, "conv": "int"}
+COMPLEX["CP_UniqueRespIdTable@B"] = {"subs": [("CP_DoIPLogicalEcuAddress", "4097"), ("CP_DoIPEcuName", "7")], "accessors": {}}
+ALL = BASE + ("CP_CanFuncReqId_Ecu", "CP_CanFuncReqId@B", "CP_UniqueRespIdTable@B")
+PREFIX_SET = ("CP_CanFuncReqId", "CP_CanFuncReqId_Ecu")
+NAMESAKE_SET = ("CP_CanFuncReqId", "CP_UniqueRespIdTable", "CP_CanFuncReqId@B", "CP_UniqueRespIdTable@B")
+PARAM_SETS = {"core": CORE, "all": BASE, "simple": ("CP_CanFuncReqId",), "complex": ("CP_UniqueRespIdTable",),
+              "prefix": PREFIX_SET, "namesake": NAMESAKE_SET}
+SUBSET_B = "CS15B"
+
+
+def short_name(param: str) -> str:
+    return param.split("@")[0]
+
+
+def subset_of(param: str) -> str:
+    return SUBSET_B if param.endswith("@B") else "CS15"
+
+
+def spec_id(param: str) -> str:
+    return f"{subset_of(param)}.{short_name(param)}"
+
+
+def param_of_spec_id(ref_id: str) -> str:
+    sub, _, name = ref_id.partition(".")
+    return name + ("@B" if sub == SUBSET_B else "")
 PROTOS = (None, "P1", "P2")
 SUBSET, CSPEC, PSTACK = "CS15", "CSPEC15", "PS15"
 
@@ -219,8 +247,9 @@ def is_complex(param: str) -> bool:
 
 
 def complex_subs(param: str, variant: str = "flat") -> List[Tuple[str, Any]]:
-    assert param == "CP_UniqueRespIdTable"
-    return VARIANTS[variant]
+    if param == "CP_UniqueRespIdTable":
+        return VARIANTS[variant]
+    return COMPLEX[param]["subs"]
 
 
 def sub_names(param: str, variant: str = "flat") -> List[str]:
@@ -413,27 +442,31 @@ def classify_view_error(i: int, key: Key, observed: Optional[str], admissible: F
 # ---------------------------------------------------------------------------------------------
 def lookup(view: Dict[Key, str], param: str, proto: Optional[str], parents: Sequence[Sequence[int]],
            by_tag: Dict[str, Dict[str, Any]]) -> Tuple[FrozenSet[Optional[str]], str]:
-    """view: key -> instance tag (a concrete view).  Returns (admissible answers, why)."""
-    named = {k: t for k, t in view.items() if k[0] == param}
+    """view: key -> instance tag (a concrete view); param: the SHORT NAME asked for (exact match; several specifications
+    may share it -- the text does not rank namesakes).  Returns (admissible answers, why)."""
+    named = {k: t for k, t in view.items() if short_name(k[0]) == param}
     if proto is None:
         if not named:
             return frozenset([None]), "no instance of that name"
         if len(named) == 1:
             return frozenset(named.values()), "only instance of that name"
         return frozenset(named.values()), "any protocol: several instances, the text does not rank them"
-    spec = named.get((param, proto))
-    gen = named.get((param, None))
-    if spec is None and gen is None:
+    specs = [t for k, t in named.items() if k[1] == proto]
+    gens = [t for k, t in named.items() if k[1] is None]
+    if not specs and not gens:
         return frozenset([None]), "neither a protocol-specific nor a generic instance"
-    if spec is None:
-        return frozenset([gen]), "generic instance, no protocol-specific one"
-    if gen is None:
-        return frozenset([spec]), "protocol-specific instance"
+    if not specs:
+        return frozenset(gens), "generic instance, no protocol-specific one" + (" (namesakes are not ranked)" if len(gens) > 1 else "")
     anc = ancestors(parents)
-    ls, lg = by_tag[spec]["layer"], by_tag[gen]["layer"]
-    if ls in anc[lg]:
-        return frozenset([spec, gen]), "generic instance defined in a closer layer than the protocol-specific one (clauses disagree)"
-    return frozenset([spec]), "protocol-specific before generic"
+    adm = set(specs)
+    why = "protocol-specific before generic" if gens else "protocol-specific instance"
+    for g in gens:
+        if any(by_tag[s]["layer"] in anc[by_tag[g]["layer"]] for s in specs):
+            adm.add(g)
+            why = "generic instance defined in a closer layer than the protocol-specific one (clauses disagree)"
+    if len(specs) > 1:
+        why += " (namesakes are not ranked)"
+    return frozenset(adm), why
 
 
 # ---------------------------------------------------------------------------------------------
@@ -475,7 +508,8 @@ def numeric(conv: str, text: str) -> Any:
 # accessor -> (parameter name, sub-parameter or None, conversion)
 ACCESSORS: Dict[str, Tuple[str, Optional[str], str]] = {}
 for _n, _d in SIMPLE.items():
-    ACCESSORS[_d["accessor"]] = (_n, None, _d["conv"])
+    if _d["accessor"]:
+        ACCESSORS[_d["accessor"]] = (_n, None, _d["conv"])
 for _n, _d in COMPLEX.items():
     for _a, _s in _d["accessors"].items():
         ACCESSORS[_a] = (_n, _s, "int")
@@ -492,7 +526,8 @@ def accessor_expectation(acc: str, inst: Optional[Dict[str, Any]], variant: str 
     if acc == "get_can_fd_baudrate":
         return "dontcare", None  # conditional on two other parameters (uses_can_fd): see can_fd_expectation
     text = effective_value(inst) if sub is None else effective_subvalue(inst, sub, variant)
-    assert text is not None
+    if text is None:
+        return "must", None  # a namesake specification without that sub-parameter
     return "must", numeric(conv, text)
 
 
